@@ -20,6 +20,7 @@ Lemma two64_double : two64 = 2 * two63.  Proof. reflexivity. Qed.
 Lemma two63_pos : 0 < two63.  Proof. reflexivity. Qed.
 Lemma apP_pos : 0 < amountPerPower.  Proof. reflexivity. Qed.
 Lemma two63_apP_lt_two255 : two63 * amountPerPower < two255.  Proof. reflexivity. Qed.
+Lemma two64_apP_lt_two255 : two64 * amountPerPower < two255.  Proof. reflexivity. Qed.
 
 Local Opaque two256 two255 two64 two63.
 
@@ -280,3 +281,643 @@ Proof.
       rewrite find_or_new_rewards in Hr. apply Hrh in Hr. exact Hr.
 Qed.
 Print Assumptions deliver_never_panics.
+
+(* ------------------------------------------------------------------ N1: a concrete state *)
+Lemma map_forall_by_list {A} (m : gmap N A) (P : A → Prop) :
+  Forall (λ kv : N * A, P kv.2) (map_to_list m) → ∀ k x, m !! k = Some x → P x.
+Proof.
+  intros H k x Hx. rewrite Forall_forall in H. apply (H (k, x)). apply elem_of_map_to_list. exact Hx.
+Qed.
+
+Lemma supply_small_by_bounds l B T :
+  (∀ a x, accts l !! a = Some x → a_bal x ≤ B) → (∀ a d, dels l !! a = Some d → d_total d ≤ T) →
+  0 ≤ T → T * amountPerPower + B < two63 * amountPerPower → supply_small l.
+Proof.
+  intros Hb Ht HT Hs. pose proof apP_pos. split.
+  - intros a x Hx. specialize (Hb _ _ Hx). nia.
+  - intros a d b x Hd Hx. specialize (Hb _ _ Hx). specialize (Ht _ _ Hd). nia.
+Qed.
+
+
+Ltac eval_list :=
+  match goal with |- Forall _ ?l => let v := eval vm_compute in l in replace l with v by (vm_compute; reflexivity) end.
+Ltac map_all := apply map_forall_by_list; eval_list; repeat constructor; vm_compute; discriminate.
+
+Definition hdr (h : Z) : header := {| h_height := h; h_proposer := Some 1%N; h_votes := []; h_evidence := [] |}.
+Definition gen3 : genesis := {|
+  gen_params := pr0 10;
+  gen_holders := [(1%N, 1000 * amountPerPower); (2%N, 500 * amountPerPower); (3%N, 500 * amountPerPower)];
+  gen_validators := [(1%N, 100); (2%N, 100); (3%N, 100)] |}.
+Definition hdr3 : header :=
+  {| h_height := 3; h_proposer := Some 1%N; h_votes := [(1%N, 100, true); (2%N, 100, true); (3%N, 100, false)];
+     h_evidence := [] |}.
+Definition st3 : state :=
+  srun (init_chain gen3) [SBegin (hdr 1); SEnd; SCommit; SBegin (hdr 2); SEnd; SCommit; SBegin hdr3].
+
+(* the hypotheses of N1 hold in the third block of a three-validator chain: the limiter is active
+   and rewards have been issued *)
+Example state_ok_ex :
+  state_ok st3 ∧ (∃ objs, lim_objs (lim st3) = Some objs) ∧ length (lastvals st3) = 3%nat ∧
+  size (rewards (work st3)) = 2%nat.
+Proof.
+  split; [|split; [eexists; vm_compute; reflexivity|split; vm_compute; reflexivity]].
+  split; [exact pr0_ok|]. split.
+  { apply (supply_small_by_bounds _ (1000 * amountPerPower) 100).
+    - map_all.
+    - map_all.
+    - lia.
+    - vm_compute. reflexivity. }
+  split; [unfold totals_nonneg; map_all|].
+  split; [intros objs _; vm_compute; split; reflexivity|].
+  unfold reward_heights_ok. map_all.
+Qed.
+
+(* ------------------------------------------------------------------ each hypothesis is needed *)
+Definition stake_tx (from to : addr) (amount nonce : Z) (h : hash) : tx := {|
+  t_type := TRX_STAKING; t_from := from; t_to := to; t_from_ok := true; t_to_ok := true; t_amount := amount;
+  t_price := 10; t_gas := 100; t_nonce := nonce; t_payload := PNone; t_hash := h; t_sigok := true; t_evm := None |}.
+
+(* (a) A REACHABLE panic when the supply is not below 2^63 RIGO: a genesis holder owning 2^63 RIGO
+   stakes them; AmountToPower (gov_params.go:611) panics inside DeliverTx.  Parameters, the
+   transaction and its payload are all well-formed; only [supply_small] fails. *)
+Definition gen_big : genesis := {|
+  gen_params := pr0 10;
+  gen_holders := [(1%N, two63 * amountPerPower + 1000000)];
+  gen_validators := [(1%N, 100)] |}.
+
+Theorem deliver_panics_reachable : ∃ g ops t,
+  params_ok (gen_params g) ∧ tx_wf t ∧ payload_kind_ok t ∧
+  (deliver (srun (init_chain g) ops) t).2 = Panic P_AMOUNT_TO_POWER.
+Proof.
+  exists gen_big, [SBegin (hdr 1)], (stake_tx 1%N 1%N (two63 * amountPerPower) 0 50%N).
+  split; [exact pr0_ok|]. split; [zc|]. split; [intros E; vm_compute in E; discriminate|].
+  vm_compute. reflexivity.
+Qed.
+Print Assumptions deliver_panics_reachable.
+
+(* (b) every balance below 2^63 RIGO but bonded power + balance not: the "delegatee power
+   overflow" panic of ValidateTrx (ctrler.go:474) *)
+Definition gen_big2 : genesis := {|
+  gen_params := pr0 10;
+  gen_holders := [(1%N, 2 ^ 62 * amountPerPower + 1000000); (2%N, 2 ^ 62 * amountPerPower + 1000000)];
+  gen_validators := [(1%N, 100)] |}.
+
+Theorem deliver_never_panics_refuted_total : ∃ g ops t,
+  params_ok (gen_params g) ∧ tx_wf t ∧ payload_kind_ok t ∧
+  (∀ a x, accts (work (srun (init_chain g) ops)) !! a = Some x → a_bal x < two63 * amountPerPower) ∧
+  (deliver (srun (init_chain g) ops) t).2 = Panic P_POWER_OVERFLOW.
+Proof.
+  exists gen_big2, [SBegin (hdr 1); SDeliver (stake_tx 1%N 1%N (2 ^ 62 * amountPerPower) 0 50%N)],
+         (stake_tx 2%N 1%N (2 ^ 62 * amountPerPower) 0 51%N).
+  split; [exact pr0_ok|]. split; [zc|]. split; [intros E; vm_compute in E; discriminate|].
+  split; [map_all|]. vm_compute. reflexivity.
+Qed.
+
+(* (c) a TRX_UNSTAKING transaction without an unstaking payload (excluded by both decoders) *)
+Theorem deliver_never_panics_refuted_kind : ∃ s t,
+  state_ok s ∧ tx_wf t ∧ (deliver s t).2 = Panic P_ENDBLOCK.
+Proof.
+  exists st3, (mk_tx TRX_UNSTAKING 1%N 1%N 0 10 100 0 PNone).
+  split; [apply state_ok_ex|]. split; [zc|]. vm_compute. reflexivity.
+Qed.
+
+(* (d) minValidatorStake below one RIGO (the only conjunct of params_ok that fails; proposals are
+   checked for an upper bound of this parameter only, gov/ctrler.go:212): delegatees without any
+   power stay eligible, and once every validator has been slashed to nothing the limiter's base
+   is 0 and checkUpdatablePowerLimit (limiter.go:163) divides by zero *)
+Definition pr_low : params := {|
+  g_version := 1; g_maxValidatorCnt := 21; g_minValidatorStake := 1;
+  g_minDelegatorStake := 0; g_rewardPerPower := 1000; g_lazyRewardBlocks := 10; g_lazyApplyingBlocks := 10;
+  g_gasPrice := 10; g_minTrxGas := 10; g_maxTrxGas := 1000000; g_maxBlockGas := 10000000;
+  g_minVotingPeriodBlocks := 1; g_maxVotingPeriodBlocks := 100; g_minSelfStakeRatio := 50;
+  g_maxUpdatableStakeRatio := 30; g_maxIndividualStakeRatio := 100; g_slashRatio := 50;
+  g_signedBlocksWindow := 100; g_minSignedBlocks := 10 |}.
+Definition gen_low : genesis := {|
+  gen_params := pr_low;
+  gen_holders := [(1%N, 1000 * amountPerPower); (2%N, 500 * amountPerPower); (3%N, 500 * amountPerPower)];
+  gen_validators := [(1%N, 1); (2%N, 1); (3%N, 1)] |}.
+Definition hdr_evi (h : Z) : header :=
+  {| h_height := h; h_proposer := Some 1%N; h_votes := []; h_evidence := [1%N; 2%N; 3%N] |}.
+
+Theorem deliver_never_panics_refuted_minstake : ∃ g ops t,
+  params_ok (merge_params (gen_params g) (pr0 10)) ∧ 0 < g_minValidatorStake (gen_params g) ∧
+  g_minValidatorStake (pr0 10) ≠ g_minValidatorStake (gen_params g) ∧
+  tx_wf t ∧ payload_kind_ok t ∧
+  supply_small (work (srun (init_chain g) ops)) ∧ totals_nonneg (work (srun (init_chain g) ops)) ∧
+  (deliver (srun (init_chain g) ops) t).2 = Panic P_LIMITER_DIV.
+Proof.
+  exists gen_low, [SBegin (hdr 1); SEnd; SCommit; SBegin (hdr 2); SEnd; SCommit; SBegin (hdr_evi 3); SEnd; SCommit;
+                   SBegin (hdr 4)],
+         (stake_tx 1%N 1%N amountPerPower 0 50%N).
+  split; [zc|]. split; [reflexivity|]. split; [discriminate|]. split; [zc|].
+  split; [intros E; vm_compute in E; discriminate|].
+  split.
+  { apply (supply_small_by_bounds _ (1000 * amountPerPower) 100); [map_all|map_all|lia|vm_compute; reflexivity]. }
+  split; [unfold totals_nonneg; map_all|].
+  vm_compute. reflexivity.
+Qed.
+
+(* ================================================================== N2: block processing *)
+(* ------------------------------------------------------------------ folds and sorted items *)
+Lemma foldl_res_ok {A B} (f : res A → B → res A) (P : A → Prop) (l : list B) :
+  (∀ a b, b ∈ l → P a → ∃ a', f (Ok a) b = Ok a' ∧ P a') →
+  ∀ a, P a → ∃ a', foldl f (Ok a) l = Ok a' ∧ P a'.
+Proof.
+  induction l as [|b l IH]; intros Hf a Ha; simpl.
+  - exists a. split; [reflexivity|exact Ha].
+  - destruct (Hf a b (elem_of_list_here _ _) Ha) as (a1 & -> & Ha1).
+    apply IH; [|exact Ha1]. intros a2 b2 Hin. apply Hf. apply elem_of_list_further. exact Hin.
+Qed.
+
+Lemma foldl_inv {A B} (f : A → B → A) (P : A → Prop) (l : list B) :
+  (∀ a b, b ∈ l → P a → P (f a b)) → ∀ a, P a → P (foldl f a l).
+Proof.
+  induction l as [|b l IH]; intros Hf a Ha; simpl; [exact Ha|].
+  apply IH; [|apply Hf; [left|exact Ha]]. intros a2 b2 Hin. apply Hf. right. exact Hin.
+Qed.
+
+Lemma sorted_items_elem {A} (m : gmap N A) k x : (k, x) ∈ sorted_items m ↔ m !! k = Some x.
+Proof. unfold sorted_items. rewrite merge_sort_Permutation. apply elem_of_map_to_list. Qed.
+Lemma sorted_items_nodup {A} (m : gmap N A) : NoDup (sorted_items m).*1.
+Proof. unfold sorted_items. rewrite merge_sort_Permutation. apply NoDup_fst_map_to_list. Qed.
+
+(* ------------------------------------------------------------------ heights *)
+(* what BeginBlock relies on besides the reward heights: block heights are consecutive and
+   every committed block left one version of the ledgers *)
+Definition heights_ok (s : state) : Prop :=
+  0 ≤ last_height s ∧ b_height (bctx s) ≤ last_height s + 1 ∧
+  last_height s ≤ Z.of_nat (length (committed s)).
+
+Definition RH (h : Z) (l : ledgers) : Prop := ∀ a r, rewards l !! a = Some r → r_height r ≤ h.
+
+(* ------------------------------------------------------------------ BeginBlock: rewards *)
+Definition reward_step (g : params) (h : Z) (acc : res (gmap addr reward * Z)) (s0 : stake) : res (gmap addr reward * Z) :=
+  match acc with
+  | Ok (m, issued) =>
+      let amt := mul256 (s_power s0 mod two64) (g_rewardPerPower g) in
+      match reward_issue (default reward0 (m !! s_from s0)) amt h with
+      | None => Panic P_REWARD_HEIGHT
+      | Some r' => Ok (<[s_from s0 := r']> m, add256 issued amt)
+      end
+  | x => x end.
+Lemma reward_to_eq g h rw d : reward_to g h rw d = foldl (reward_step g h) (Ok (rw, 0)) (d_stakes d).
+Proof. reflexivity. Qed.
+
+Definition RHm (h : Z) (m : gmap addr reward) : Prop := ∀ a r, m !! a = Some r → r_height r ≤ h.
+
+Lemma reward_to_ok g h rw d : 0 ≤ h → RHm h rw →
+  ∃ rw' iss, reward_to g h rw d = Ok (rw', iss) ∧ RHm h rw'.
+Proof.
+  intros Hh Hrw. rewrite reward_to_eq.
+  destruct (foldl_res_ok (reward_step g h) (λ x, RHm h x.1) (d_stakes d)) with (a := (rw, 0))
+    as ([rw' iss] & E & H); [|exact Hrw|exists rw', iss; split; assumption].
+  intros [m issued] s0 _ Hm. cbn [fst] in Hm. unfold reward_step.
+  set (amt := mul256 _ _). unfold reward_issue.
+  assert (Hle : r_height (default reward0 (m !! s_from s0)) ≤ h).
+  { destruct (m !! s_from s0) as [r|] eqn:Er; cbn; [eapply Hm; exact Er|exact Hh]. }
+  destruct (h <? _) eqn:E; [apply Z.ltb_lt in E; lia|].
+  eexists. split; [reflexivity|]. cbn [fst]. intros a r Hr.
+  destruct (decide (a = s_from s0)) as [->|Hne].
+  - rewrite lookup_insert in Hr. injection Hr as <-. cbn. lia.
+  - rewrite lookup_insert_ne in Hr by congruence. eapply Hm. exact Hr.
+Qed.
+
+(* ------------------------------------------------------------------ BeginBlock: votes *)
+Definition vote_step (g : params) (old : ledgers) (h : Z) (acc : res (ledgers * Z)) (v : addr * Z * bool) : res (ledgers * Z) :=
+  match acc with
+  | Ok (l, issued) =>
+    let '(a, pw, signed) := v in
+    if signed : bool then
+      match dels old !! a with
+      | None => Ok (l, issued)
+      | Some d => if negb (d_total d =? pw) then Ok (l, issued)
+                  else match reward_to g h (rewards l) d with
+                       | Ok (rw, iss) => Ok (set_rewards l rw, add256 issued iss)
+                       | Err e => Err e | Panic p => Panic p end
+      end
+    else
+      match dels l !! a with
+      | None => Ok (l, issued)
+      | Some d =>
+          let sh := h - 1 in
+          let m1 := mark (d_marks d) sh in
+          let s0 := if sh - g_signedBlocksWindow g <? 0 then 0 else sh - g_signedBlocksWindow g in
+          let '(cnt, m2) := count_in_window m1 s0 sh in
+          let d1 := {| d_addr := d_addr d; d_self := d_self d; d_total := d_total d; d_stakes := d_stakes d; d_marks := m2 |} in
+          let l1 := set_dels l (<[a := d1]> (dels l)) in
+          if g_signedBlocksWindow g - cnt <? g_minSignedBlocks g then
+            let '(_, ss) := del_all_stakes d1 in
+            let l2 := set_frozen l1 (freeze_all (frozen l1) (h + g_lazyRewardBlocks g) ss) in
+            Ok (set_dels l2 (delete a (dels l2)), issued)
+          else Ok (l1, issued)
+      end
+  | x => x end.
+
+Lemma process_votes_eq s l h votes :
+  process_votes s l h votes =
+  match ledgers_at s (hgt_of_power h) with
+  | None => Panic P_BEGINBLOCK
+  | Some old => foldl (vote_step (gparams s) old h) (Ok (l, 0)) votes
+  end.
+Proof. reflexivity. Qed.
+
+(* one vote: no panic; only rewards, delegatees and frozen stakes change *)
+Lemma vote_step_ok g old h l issued v : 0 ≤ h → RH h l →
+  ∃ l' issued', vote_step g old h (Ok (l, issued)) v = Ok (l', issued') ∧ RH h l' ∧
+    accts l' = accts l ∧ props l' = props l ∧ fprops l' = fprops l ∧ lparams l' = lparams l ∧
+    ((dels l' = dels l ∧ frozen l' = frozen l) ∨
+     (rewards l' = rewards l ∧ ∃ a d m2, v = (a, v.1.2, false) ∧ dels l !! a = Some d ∧
+        let d1 := {| d_addr := d_addr d; d_self := d_self d; d_total := d_total d; d_stakes := d_stakes d; d_marks := m2 |} in
+        (dels l' = <[a := d1]> (dels l) ∧ frozen l' = frozen l ∨
+         dels l' = delete a (dels l) ∧
+         frozen l' = freeze_all (frozen l) (h + g_lazyRewardBlocks g) (d_stakes d)))).
+Proof.
+  intros Hh Hl. destruct v as [[a pw] signed]. unfold vote_step. destruct signed.
+  - destruct (dels old !! a) as [d|].
+    2:{ exists l, issued. repeat split; try assumption. left. split; reflexivity. }
+    destruct (negb (d_total d =? pw)).
+    { exists l, issued. repeat split; try assumption. left. split; reflexivity. }
+    destruct (reward_to_ok g h (rewards l) d Hh Hl) as (rw' & iss & -> & Hrw').
+    eexists _, _. split; [reflexivity|]. split; [exact Hrw'|]. repeat split. left. split; reflexivity.
+  - destruct (dels l !! a) as [d|] eqn:Ed.
+    2:{ exists l, issued. repeat split; try assumption. left. split; reflexivity. }
+    cbv zeta. destruct (count_in_window _ _ _) as [cnt m2].
+    destruct (_ <? g_minSignedBlocks g).
+    + cbn [del_all_stakes d_stakes]. eexists _, _. split; [reflexivity|]. split; [exact Hl|].
+      repeat split. right. split; [reflexivity|]. exists a, d, m2. split; [reflexivity|]. split; [exact Ed|].
+      right. cbn. rewrite delete_insert_delete. split; reflexivity.
+    + eexists _, _. split; [reflexivity|]. split; [exact Hl|].
+      repeat split. right. split; [reflexivity|]. exists a, d, m2. split; [reflexivity|]. split; [exact Ed|].
+      left. split; reflexivity.
+Qed.
+
+Lemma ledgers_at_some s n :
+  n ≤ Z.of_nat (length (committed s)) → is_Some (ledgers_at s n).
+Proof.
+  intros Hn. unfold ledgers_at.
+  destruct (Z.of_nat (length (committed s)) <? n) eqn:E1; [apply Z.ltb_lt in E1; lia|].
+  destruct (n <=? 0) eqn:E2; [eexists; reflexivity|]. apply Z.leb_gt in E2.
+  apply lookup_lt_is_Some. lia.
+Qed.
+
+Lemma hgt_of_power_le h n : 1 ≤ n → h ≤ n + 1 → hgt_of_power h ≤ n.
+Proof. intros H1 Hh. unfold hgt_of_power. destruct (h - 4 <=? 0) eqn:E; [lia|]. lia. Qed.
+
+(* N2, BeginBlock.  Intended statement: under [state_ok s] ...; only the reward heights are
+   used, so the theorem is stated with that conjunct alone ([state_ok s] implies it).
+   The two hypotheses on the header are Tendermint's discipline: heights are consecutive
+   (node/app.go:296 panics otherwise) and the first block carries no LastCommitInfo votes
+   (with votes, block 1 asks for ImmutableLedgerAt(1) before any version exists and
+   StakeCtrler.BeginBlock returns an error, on which node/app.go:316 panics). *)
+Theorem begin_block_never_panics s hd :
+  reward_heights_ok s → heights_ok s →
+  h_height hd = last_height s + 1 →
+  (h_votes hd ≠ [] → committed s ≠ []) →
+  ∀ s' p, begin_block s hd ≠ (s', Panic p).
+Proof.
+  intros Hrh (H0 & Hb & Hc) Hh Hvotes s' p H. unfold begin_block in H.
+  rewrite Hh, Z.eqb_refl in H. cbn [negb] in H.
+  destruct (h_votes hd) as [|v vs] eqn:Ev; [discriminate|].
+  rewrite process_votes_eq in H.
+  assert (Hlen : 1 ≤ Z.of_nat (length (committed s))).
+  { destruct (committed s); [exfalso; apply Hvotes; [discriminate|reflexivity]|cbn; lia]. }
+  match type of H with context [ledgers_at ?s1 ?n] =>
+    destruct (ledgers_at_some s1 n) as [old Eo] end.
+  { cbn [committed]. apply hgt_of_power_le; lia. }
+  rewrite Eo in H.
+  match type of H with context [foldl ?f (Ok (?l, 0)) ?vs] =>
+    destruct (foldl_res_ok f (λ x, RH (last_height s + 1) x.1) vs) with (a := (l, 0))
+      as ([l3 iss] & E & _) end.
+  - intros [l issued] v0 _ Hl. cbn [gparams].
+    destruct (vote_step_ok (gparams s) old (last_height s + 1) l issued v0) as (l' & i' & E & Hl' & _);
+      [lia|exact Hl|]. exists (l', i'). split; [exact E|exact Hl'].
+  - cbn [fst]. intros a r Hr. unfold stake_punish in Hr.
+    assert (Hrw : ∀ l evi, rewards (stake_punish l (g_slashRatio (gparams s)) evi) = rewards l).
+    { intros l evi. unfold stake_punish. apply (foldl_inv _ (λ x, rewards x = rewards l)); [|reflexivity].
+      intros x a0 _ Hx. destruct (dels x !! a0); [exact Hx|exact Hx]. }
+    fold (stake_punish (gov_punish (work s) (g_slashRatio (gparams s)) (h_evidence hd)) (g_slashRatio (gparams s)) (h_evidence hd)) in Hr.
+    rewrite Hrw in Hr.
+    assert (Hgp : ∀ l evi, rewards (gov_punish l (g_slashRatio (gparams s)) evi) = rewards l).
+    { intros l evi. unfold gov_punish. apply (foldl_inv _ (λ x, rewards x = rewards l)); [|reflexivity].
+      intros x a0 _ Hx. apply (foldl_inv _ (λ y, rewards y = rewards l)); [|exact Hx].
+      intros y kp _ Hy. destruct (props y !! kp.1); [exact Hy|exact Hy]. }
+    rewrite Hgp in Hr. apply Hrh in Hr. lia.
+  - rewrite E in H. discriminate.
+Qed.
+Print Assumptions begin_block_never_panics.
+
+(* ------------------------------------------------------------------ proposals *)
+(* [Q] is what is known about the parameter documents of the options; N2 needs only that they
+   parse ([Q := λ _, True]), N3 also that applying them keeps the parameters well-formed *)
+Definition option_ok (Q : params → Prop) (o : voption) : Prop := ∃ np, o_params o = Some np ∧ Q np.
+Definition prop_ok (Q : params → Prop) (p : proposal) : Prop :=
+  p_options p ≠ [] ∧
+  (p_opttype p = PROPOSAL_GOVPARAMS → Forall (option_ok Q) (p_options p)) ∧
+  (p_opttype p = PROPOSAL_GOVPARAMS → ∀ o, p_major p = Some o → option_ok Q o).
+Definition gov_ok (Q : params → Prop) (l : ledgers) : Prop :=
+  (∀ k p, props l !! k = Some p → prop_ok Q p) ∧ (∀ k p, fprops l !! k = Some p → prop_ok Q p).
+
+Lemma insert_opt_Forall (P : voption → Prop) x l : P x → Forall P l → Forall P (insert_opt x l).
+Proof.
+  intros Hx. induction 1 as [|y l Hy Hl IH]; simpl; [repeat constructor; exact Hx|].
+  destruct (o_votes y <? o_votes x); repeat constructor; assumption.
+Qed.
+Lemma insert_opt_nonempty x l : insert_opt x l ≠ [].
+Proof. destruct l as [|y l]; simpl; [discriminate|]. destruct (o_votes y <? o_votes x); discriminate. Qed.
+
+Lemma sort_opts_Forall (P : voption → Prop) l : Forall P l → Forall P (sort_opts l).
+Proof.
+  unfold sort_opts. intros H.
+  assert (G : ∀ acc, Forall P acc → Forall P (foldl (λ acc x, insert_opt x acc) acc l)).
+  { induction H as [|x l Hx Hl IH]; intros acc Ha; simpl; [exact Ha|].
+    apply IH. apply insert_opt_Forall; assumption. }
+  apply G. constructor.
+Qed.
+Lemma sort_opts_nonempty l : l ≠ [] → sort_opts l ≠ [].
+Proof.
+  unfold sort_opts. intros H.
+  assert (G : ∀ l acc, acc ≠ [] → foldl (λ acc x, insert_opt x acc) acc l ≠ []).
+  { clear. induction l as [|x l IH]; intros acc Ha; simpl; [exact Ha|]. apply IH. apply insert_opt_nonempty. }
+  destruct l as [|x l]; [contradiction|]. simpl. apply G. discriminate.
+Qed.
+
+(* updateMajorOption: options[0] exists (ctrlers/gov/proposal: the slice index panics otherwise) *)
+Lemma update_major_ok Q p : prop_ok Q p → ∃ p', update_major p = Ok p' ∧ prop_ok Q p'.
+Proof.
+  intros (Hne & Hopts & Hmaj). unfold update_major.
+  pose proof (sort_opts_nonempty _ Hne) as Hs.
+  destruct (sort_opts (p_options p)) as [|o os] eqn:Eo; [contradiction|].
+  eexists. split; [reflexivity|]. split; [cbn; discriminate|]. split; cbn.
+  - intros Ht. rewrite <- Eo. apply sort_opts_Forall. apply Hopts. exact Ht.
+  - intros Ht o' Ho'. destruct (p_majority p <=? o_votes o).
+    + injection Ho' as <-. specialize (Hopts Ht). apply (sort_opts_Forall _ _) in Hopts.
+      rewrite Eo in Hopts. inversion Hopts; assumption.
+    + apply Hmaj; assumption.
+Qed.
+
+(* ------------------------------------------------------------------ EndBlock: freezeProposals *)
+Definition freeze_step (h : Z) (acc : res ledgers) (kp : hash * proposal) : res ledgers :=
+  match acc with
+  | Ok l =>
+      let p := kp.2 in
+      if p_end p <? h then
+        match props l !! kp.1 with
+        | None => Panic P_ENDBLOCK
+        | Some _ =>
+            let l1 := set_props l (delete kp.1 (props l)) in
+            match update_major p with
+            | Ok p' => match p_major p' with
+                       | Some _ => Ok (set_fprops l1 (<[kp.1 := p']> (fprops l1)))
+                       | None => Ok l1 end
+            | Err e => Err e | Panic x => Panic x
+            end
+        end
+      else Ok l
+  | x => x end.
+Lemma freeze_proposals_eq base l h :
+  freeze_proposals base l h = foldl (freeze_step h) (Ok l) (sorted_items (props base)).
+Proof. reflexivity. Qed.
+
+Definition freeze_post (Q : params → Prop) (l l' : ledgers) : Prop :=
+  accts l' = accts l ∧ dels l' = dels l ∧ frozen l' = frozen l ∧ rewards l' = rewards l ∧
+  (∀ k p, props l' !! k = Some p → props l !! k = Some p) ∧
+  (∀ k, is_Some (fprops l !! k) → is_Some (fprops l' !! k)) ∧
+  (∀ k p, fprops l' !! k = Some p → fprops l !! k = Some p ∨ prop_ok Q p).
+
+Lemma freeze_post_refl Q l : freeze_post Q l l.
+Proof. repeat split; auto. Qed.
+Lemma freeze_post_trans Q l1 l2 l3 : freeze_post Q l1 l2 → freeze_post Q l2 l3 → freeze_post Q l1 l3.
+Proof.
+  intros (A1 & B1 & C1 & D1 & E1 & F1 & G1) (A2 & B2 & C2 & D2 & E2 & F2 & G2).
+  repeat split; try congruence; auto.
+  intros k p H. destruct (G2 k p H) as [H'|H']; [auto|right; exact H'].
+Qed.
+
+Lemma freeze_fold Q h items : NoDup items.*1 → ∀ l,
+  (∀ kp, kp ∈ items → is_Some (props l !! kp.1) ∧ prop_ok Q kp.2) →
+  ∃ l', foldl (freeze_step h) (Ok l) items = Ok l' ∧ freeze_post Q l l'.
+Proof.
+  induction items as [|kp items IH]; intros Hnd l Hin; cbn [foldl].
+  { exists l. split; [reflexivity|apply freeze_post_refl]. }
+  apply NoDup_cons in Hnd as [Hnk Hnd]. cbn [fmap list_fmap] in Hnk.
+  destruct (Hin kp (elem_of_list_here _ _)) as [[q Hq] Hok].
+  assert (Hstep : ∃ l1, freeze_step h (Ok l) kp = Ok l1 ∧ freeze_post Q l l1 ∧
+                        ∀ k, k ≠ kp.1 → props l1 !! k = props l !! k).
+  { unfold freeze_step. destruct (p_end kp.2 <? h).
+    2:{ exists l. split; [reflexivity|]. split; [apply freeze_post_refl|reflexivity]. }
+    rewrite Hq. cbv zeta. destruct (update_major_ok Q kp.2 Hok) as (p' & -> & Hp').
+    destruct (p_major p').
+    - eexists. split; [reflexivity|]. split.
+      + repeat split; cbn.
+        * intros k p Hk. apply lookup_delete_Some in Hk. tauto.
+        * intros k Hk. apply lookup_insert_is_Some'. right. exact Hk.
+        * intros k p Hk. destruct (decide (k = kp.1)) as [->|Hne].
+          -- rewrite lookup_insert in Hk. injection Hk as <-. right. exact Hp'.
+          -- rewrite lookup_insert_ne in Hk by congruence. left. exact Hk.
+      + intros k Hne. cbn. apply lookup_delete_ne. congruence.
+    - eexists. split; [reflexivity|]. split.
+      + repeat split; cbn; auto. intros k p Hk. apply lookup_delete_Some in Hk. tauto.
+      + intros k Hne. cbn. apply lookup_delete_ne. congruence. }
+  destruct Hstep as (l1 & -> & Hpost1 & Hother).
+  destruct (IH Hnd l1) as (l' & E & Hpost').
+  { intros kp' Hkp'. destruct (Hin kp' (elem_of_list_further _ _ _ Hkp')) as [Hs Hp]. split; [|exact Hp].
+    rewrite Hother; [exact Hs|]. intros Heq. apply Hnk. rewrite <- Heq.
+    apply elem_of_list_fmap. exists kp'. split; [reflexivity|exact Hkp']. }
+  exists l'. split; [exact E|]. eapply freeze_post_trans; eassumption.
+Qed.
+
+(* ------------------------------------------------------------------ EndBlock: applyProposals *)
+Definition apply_step (g : params) (h : Z) (acc : res (ledgers * option params)) (kp : hash * proposal)
+  : res (ledgers * option params) :=
+  match acc with
+  | Ok (l, np) =>
+      let p := kp.2 in
+      if p_apply p <=? h then
+        match fprops l !! kp.1 with
+        | None => Panic P_ENDBLOCK
+        | Some _ =>
+            let l1 := set_fprops l (delete kp.1 (fprops l)) in
+            match p_major p with
+            | Some o =>
+                if p_opttype p =? PROPOSAL_GOVPARAMS then
+                  match o_params o with
+                  | Some newp => let m := merge_params g newp in Ok (set_lparams l1 m, Some m)
+                  | None => Panic P_ENDBLOCK
+                  end
+                else Ok (l1, np)
+            | None => Ok (l1, np)
+            end
+        end
+      else Ok (l, np)
+  | x => x end.
+Lemma apply_proposals_eq s base l h :
+  apply_proposals s base l h = foldl (apply_step (gparams s) h) (Ok (l, newparams s)) (sorted_items (fprops base)).
+Proof. reflexivity. Qed.
+
+Definition apply_post (l l' : ledgers) : Prop :=
+  accts l' = accts l ∧ dels l' = dels l ∧ frozen l' = frozen l ∧ rewards l' = rewards l ∧
+  props l' = props l ∧ (∀ k p, fprops l' !! k = Some p → fprops l !! k = Some p).
+
+Lemma apply_fold (Q R : params → Prop) g h items : NoDup items.*1 →
+  (∀ newp, Q newp → R (merge_params g newp)) → ∀ l np,
+  (∀ kp, kp ∈ items → is_Some (fprops l !! kp.1) ∧ prop_ok Q kp.2) →
+  (∀ m, np = Some m → R m) →
+  ∃ l' np', foldl (apply_step g h) (Ok (l, np)) items = Ok (l', np') ∧ apply_post l l' ∧
+            (∀ m, np' = Some m → R m).
+Proof.
+  intros Hnd HQR. induction items as [|kp items IH]; intros l np Hin Hnp; cbn [foldl].
+  { exists l, np. split; [reflexivity|]. split; [repeat split; auto|exact Hnp]. }
+  apply NoDup_cons in Hnd as [Hnk Hnd]. cbn [fmap list_fmap] in Hnk.
+  destruct (Hin kp (elem_of_list_here _ _)) as [[q Hq] (_ & _ & Hmaj)].
+  assert (Hstep : ∃ l1 np1, apply_step g h (Ok (l, np)) kp = Ok (l1, np1) ∧ apply_post l l1 ∧
+                        (∀ m, np1 = Some m → R m) ∧ ∀ k, k ≠ kp.1 → fprops l1 !! k = fprops l !! k).
+  { unfold apply_step. destruct (p_apply kp.2 <=? h).
+    2:{ exists l, np. split; [reflexivity|]. split; [repeat split; auto|]. split; [exact Hnp|reflexivity]. }
+    rewrite Hq. cbv zeta.
+    assert (Hdel : apply_post l (set_fprops l (delete kp.1 (fprops l)))).
+    { repeat split; cbn; auto. intros k p Hk. apply lookup_delete_Some in Hk. tauto. }
+    assert (Hne : ∀ k, k ≠ kp.1 → delete kp.1 (fprops l) !! k = fprops l !! k).
+    { intros k Hk. apply lookup_delete_ne. congruence. }
+    destruct (p_major kp.2) as [o|] eqn:Em.
+    2:{ eexists _, _. split; [reflexivity|]. split; [exact Hdel|]. split; [exact Hnp|exact Hne]. }
+    destruct (Z.eqb_spec (p_opttype kp.2) PROPOSAL_GOVPARAMS) as [Et|Et].
+    2:{ eexists _, _. split; [reflexivity|]. split; [exact Hdel|]. split; [exact Hnp|exact Hne]. }
+    destruct (Hmaj Et o eq_refl) as (newp & -> & HQ).
+    eexists _, _. split; [reflexivity|]. split; [exact Hdel|]. split; [|exact Hne].
+    intros m Hm. injection Hm as <-. apply HQR. exact HQ. }
+  destruct Hstep as (l1 & np1 & -> & Hpost1 & Hnp1 & Hother).
+  destruct (IH Hnd l1 np1) as (l' & np' & E & Hpost' & Hnp'); [|exact Hnp1|].
+  { intros kp' Hkp'. destruct (Hin kp' (elem_of_list_further _ _ _ Hkp')) as [Hs Hp]. split; [|exact Hp].
+    rewrite Hother; [exact Hs|]. intros Heq. apply Hnk. rewrite <- Heq.
+    apply elem_of_list_fmap. exists kp'. split; [reflexivity|exact Hkp']. }
+  exists l', np'. split; [exact E|]. split; [|exact Hnp'].
+  destruct Hpost1 as (A1 & B1 & C1 & D1 & E1 & F1). destruct Hpost' as (A2 & B2 & C2 & D2 & E2 & F2).
+  repeat split; try congruence. auto.
+Qed.
+
+(* ------------------------------------------------------------------ EndBlock: unfreezingStakes *)
+Definition accts_mono (A A' : gmap addr account) : Prop := ∀ a, is_Some (A !! a) → is_Some (A' !! a).
+Lemma accts_mono_refl A : accts_mono A A.  Proof. intros a H. exact H. Qed.
+Lemma accts_mono_trans A B C : accts_mono A B → accts_mono B C → accts_mono A C.
+Proof. intros H1 H2 a H. auto. Qed.
+Lemma accts_mono_insert A a x : accts_mono A (<[a := x]> A).
+Proof. intros b H. apply lookup_insert_is_Some'. right. exact H. Qed.
+
+Lemma power_to_amount_pos p : (sign256 (power_to_amount p) <? 0) = false.
+Proof.
+  apply sign256_nonneg. unfold power_to_amount, mul256, wrap256.
+  pose proof (Z.mod_pos_bound p two64 two64_pos) as Hm. pose proof apP_pos as Ha.
+  pose proof two64_apP_lt_two255 as Hb. pose proof two256_double as Hd. pose proof two255_pos.
+  rewrite Z.mod_small; nia.
+Qed.
+
+Definition unfreeze_step (h : Z) (acc : res ledgers) (kp : hash * stake) : res ledgers :=
+  match acc with
+  | Ok l =>
+      let s0 := kp.2 in
+      if s_refund s0 <=? h then
+        match acct_reward l (s_from s0) (power_to_amount (s_power s0)) with
+        | None => Panic P_ENDBLOCK
+        | Some l1 => Ok (set_frozen l1 (delete kp.1 (frozen l1)))
+        end
+      else Ok l
+  | x => x end.
+Lemma unfreeze_eq base l h : unfreeze base l h = foldl (unfreeze_step h) (Ok l) (sorted_items (frozen base)).
+Proof. reflexivity. Qed.
+
+Definition unfreeze_post (l l' : ledgers) : Prop :=
+  accts_mono (accts l) (accts l') ∧ dels l' = dels l ∧ rewards l' = rewards l ∧
+  props l' = props l ∧ fprops l' = fprops l ∧
+  (∀ k st, frozen l' !! k = Some st → frozen l !! k = Some st).
+
+Lemma unfreeze_fold h items l :
+  (∀ kp, kp ∈ items → is_Some (accts l !! s_from kp.2)) →
+  ∃ l', foldl (unfreeze_step h) (Ok l) items = Ok l' ∧ unfreeze_post l l'.
+Proof.
+  intros Hin. apply (foldl_res_ok (unfreeze_step h) (unfreeze_post l)).
+  2:{ split; [apply accts_mono_refl|]. repeat split; auto. }
+  intros l1 kp Hkp (A & B & C & D & E & F). unfold unfreeze_step.
+  destruct (s_refund kp.2 <=? h).
+  2:{ exists l1. split; [reflexivity|]. repeat split; auto. }
+  destruct (A _ (Hin kp Hkp)) as [x Hx]. unfold acct_reward. rewrite Hx. cbn [mbind option_bind].
+  unfold add_balance. rewrite power_to_amount_pos. cbn [mbind option_bind].
+  eexists. split; [reflexivity|]. split; [|repeat split; cbn; auto].
+  - cbn. eapply accts_mono_trans; [exact A|apply accts_mono_insert].
+  - intros k st Hk. apply lookup_delete_Some in Hk. apply F. tauto.
+Qed.
+
+(* ------------------------------------------------------------------ N2, EndBlock *)
+(* the committed proposals are still in the working tree, and so are the frozen ones: only
+   freezeProposals / applyProposals remove them, once per block *)
+Definition keys_ok (s : state) : Prop :=
+  (∀ k, is_Some (props (base_of s) !! k) → is_Some (props (work s) !! k)) ∧
+  (∀ k, is_Some (fprops (base_of s) !! k) → is_Some (fprops (work s) !! k)).
+(* the owner of every unbonding stake has an account (AcctCtrler.Reward on a missing account
+   returns an error, which unfreezingStakes hands to EndBlock; node/app.go:530 panics on it) *)
+Definition frozen_owned (A : gmap addr account) (l : ledgers) : Prop :=
+  ∀ h st, frozen l !! h = Some st → is_Some (A !! s_from st).
+
+Definition end_post (Q : params → Prop) (s s' : state) : Prop :=
+  committed s' = committed s ∧ gparams s' = gparams s ∧ alldels s' = alldels s ∧ lim s' = lim s ∧
+  bctx s' = bctx s ∧ last_height s' = last_height s ∧
+  accts_mono (accts (work s)) (accts (work s')) ∧ dels (work s') = dels (work s) ∧
+  rewards (work s') = rewards (work s) ∧
+  (∀ k st, frozen (work s') !! k = Some st → frozen (work s) !! k = Some st) ∧
+  (∀ k p, props (work s') !! k = Some p → props (work s) !! k = Some p) ∧
+  (∀ k p, fprops (work s') !! k = Some p → fprops (work s) !! k = Some p ∨ prop_ok Q p).
+
+Lemma end_block_ok (Q R : params → Prop) s :
+  0 ≤ g_maxValidatorCnt (gparams s) → keys_ok s → gov_ok Q (base_of s) →
+  frozen_owned (accts (work s)) (base_of s) →
+  (∀ newp, Q newp → R (merge_params (gparams s) newp)) → (∀ m, newparams s = Some m → R m) →
+  ∃ s' ups, end_block s = (s', Ok ups) ∧ end_post Q s s' ∧ (∀ m, newparams s' = Some m → R m).
+Proof.
+  intros Hmax [Hkp Hkf] [Hgp Hgf] Hfo HQR HR. unfold end_block.
+  rewrite freeze_proposals_eq.
+  destruct (freeze_fold Q (b_height (bctx s)) _ (sorted_items_nodup (props (base_of s))) (work s))
+    as (l1 & -> & (A1 & B1 & C1 & D1 & E1 & F1 & G1)).
+  { intros [k p] Hin. apply sorted_items_elem in Hin. cbn. split; [apply Hkp; eexists; exact Hin|].
+    eapply Hgp. exact Hin. }
+  rewrite apply_proposals_eq.
+  destruct (apply_fold Q R (gparams s) (b_height (bctx s)) _ (sorted_items_nodup (fprops (base_of s))) HQR
+              l1 (newparams s)) as (l2 & np & -> & (A2 & B2 & C2 & D2 & E2 & F2) & Hnp); [|exact HR|].
+  { intros [k p] Hin. apply sorted_items_elem in Hin. cbn. split; [apply F1, Hkf; eexists; exact Hin|].
+    eapply Hgf. exact Hin. }
+  set (l3o := match b_proposer (bctx s) with Some pa => _ | None => Some l2 end).
+  assert (H3 : ∃ l3, l3o = Some l3 ∧ accts_mono (accts l2) (accts l3) ∧ dels l3 = dels l2 ∧
+                     frozen l3 = frozen l2 ∧ rewards l3 = rewards l2 ∧ props l3 = props l2 ∧ fprops l3 = fprops l2).
+  { subst l3o. destruct (b_proposer (bctx s)) as [pa|].
+    2:{ exists l2. split; [reflexivity|]. split; [apply accts_mono_refl|]. repeat split. }
+    destruct (0 <? sign256 (b_feesum (bctx s))) eqn:Es.
+    2:{ exists l2. split; [reflexivity|]. split; [apply accts_mono_refl|]. repeat split. }
+    unfold add_balance. apply Z.ltb_lt in Es.
+    destruct (sign256 (b_feesum (bctx s)) <? 0) eqn:Es'; [apply Z.ltb_lt in Es'; lia|].
+    eexists. split; [reflexivity|]. split; [apply accts_mono_insert|]. repeat split. }
+  destruct H3 as (l3 & -> & A3 & B3 & C3 & D3 & E3 & F3).
+  rewrite unfreeze_eq.
+  destruct (unfreeze_fold (b_height (bctx s)) (sorted_items (frozen (base_of s))) l3)
+    as (l4 & -> & (A4 & B4 & C4 & D4 & E4 & F4)).
+  { intros [k st] Hin. apply sorted_items_elem in Hin. cbn. apply A3. rewrite A2, A1. eapply Hfo. exact Hin. }
+  destruct (g_maxValidatorCnt (gparams s) <? 0) eqn:Em; [apply Z.ltb_lt in Em; lia|].
+  eexists _, _. split; [reflexivity|]. split; [|exact Hnp].
+  unfold end_post. cbn. repeat split.
+  - eapply accts_mono_trans; [|exact A4]. rewrite <- A1, <- A2. exact A3.
+  - congruence.
+  - congruence.
+  - intros k st Hk. apply F4 in Hk. congruence.
+  - intros k p Hk. apply E1. congruence.
+  - intros k p Hk. rewrite E4, F3 in Hk. apply F2 in Hk. apply G1. exact Hk.
+Qed.
+
+(* Intended statement: under [state_ok s] plus ...; of [state_ok] only [0 ≤ g_maxValidatorCnt]
+   is used (selectValidators slices allDelegatees[:maxValidatorCnt]) *)
+Theorem end_block_never_panics s :
+  0 ≤ g_maxValidatorCnt (gparams s) → keys_ok s → gov_ok (λ _, True) (base_of s) →
+  frozen_owned (accts (work s)) (base_of s) →
+  ∀ s' p, end_block s ≠ (s', Panic p).
+Proof.
+  intros Hmax Hk Hg Hf s' p H.
+  destruct (end_block_ok (λ _, True) (λ _, True) s Hmax Hk Hg Hf) as (s1 & ups & E & _); [auto|auto|].
+  rewrite E in H. discriminate.
+Qed.
+Print Assumptions end_block_never_panics.
